@@ -304,6 +304,20 @@ Definition j_z_off (args : list val) (out : val) : verdict :=
   | _ => JSkip
   end.
 
+(** order of zone-aware values (also with different offsets) follows the distance of their instants:
+    [cmp], [partial_cmp], [==] and [max] all read the sign of (instant a - instant b) *)
+Definition j_zord (args : list val) (out : val) : verdict :=
+  match args with
+  | [a; b] =>
+      match inst_of_dtz a, inst_of_dtz b with
+      | (AInst x, _), (AInst y, _) =>
+          let c := cmpZ (x - y) 0 in
+          judge_eq (VTup [VInt c; VSome (VInt c); val_of_bool (c =? 0); val_of_bool (0 <=? c)]) out
+      | _, _ => JSkip
+      end
+  | _ => JSkip
+  end.
+
 (** ** adaptors over the same sequence of items: [count] is the number of items, [last] the final
     one, [len] the exact length (forward), [step_by(st)] every st-th item beginning with the first,
     [rev()] the sequence driven from the other end.  The ops that run to the end are only asked
@@ -404,6 +418,7 @@ Definition judge (op : bytes) (args : list val) (out : val) : verdict :=
   else if op_is op "ar.stdasg" then j_n_std args out
   else if op_is op "ar.zstdasg" then j_z_std args out
   else if op_is op "ar.opzdiffref" then j_z_z args out
+  else if op_is op "ar.zord" then j_zord args out
   else if op_is op "ar.noff" then j_n_off false args out
   else if op_is op "ar.opnoff" then j_n_off true args out
   else if op_is op "ar.opzoff" then j_z_off args out
